@@ -188,7 +188,11 @@ def run(tier):
         if ca == ('E',) or not ca: continue
         ncmp += 1
         if ca != cb:
-            note('spell:att-x87:%s:%s' % (x['att'].split()[0], asmcheck.features(x)), x['att'], '%r assembles to %s but its AT&T spelling %r to %s' % (x['intel'], list(ca)[:4], x['att'], ('an exception' if cb == ('E',) else list(cb)[:4])))
+            fx = asmcheck.features(x); amn = x['att'].split()[0]
+            # three root causes get one class each: a segment-override absolute operand in AT&T syntax yields no candidate; fisttpw is unknown;
+            # the suffix-less fnstsw of a 16-bit memory operand yields no candidate
+            xkey = 'spell:att-x87:*:segovr' if 'segovr' in fx.split('+') else ('spell:att-x87:%s:*' % amn if amn in ('fisttpw', 'fnstsw') else 'spell:att-x87:%s:%s' % (amn, fx))
+            note(xkey, x['att'], '%r assembles to %s but its AT&T spelling %r to %s' % (x['intel'], list(ca)[:4], x['att'], ('an exception' if cb == ('E',) else list(cb)[:4])))
     chk.cov['x87_pairs'] = len(xs)
     # hand-written AT&T x87 register arithmetic (the fsub/fdiv reversal of the AT&T dialect included): the encoding GNU as gives the line must
     # be among the candidates — GNU as is the oracle of what the AT&T spelling denotes, independently of the library's own renderer
